@@ -509,8 +509,12 @@ func validateAgainst(s *RefSchema, v any, depth int) string {
 			return fmt.Sprintf("%T where a string is declared", v)
 		}
 		if s.Format == "date-time" {
-			if _, err := time.Parse(time.RFC3339Nano, str); err != nil {
-				return "not an RFC 3339 date-time: " + str
+			layout, ok := timeLayoutOf(s)
+			if !ok {
+				return ""
+			}
+			if _, err := time.Parse(layout, str); err != nil {
+				return "not a date-time of the declared layout (" + layout + "): " + str
 			}
 		}
 	case "integer":
@@ -623,6 +627,9 @@ func sampleValue(s *RefSchema, r *rand.Rand, depth int) any {
 	case "string":
 		switch s.Format {
 		case "date-time":
+			if layout, ok := timeLayoutOf(s); ok {
+				return time.Date(2020, 1, 2, 3, 4, 5, 0, time.UTC).Format(layout)
+			}
 			return "2020-01-02T03:04:05Z"
 		case "date":
 			return "2020-01-02"
